@@ -341,6 +341,20 @@ def r11_4(ctx):
             min(t.lineno for t in take_x0) - fn.lineno, [r.lineno - fn.lineno for r in res_x]), ok, res_x[0],
             'the requested reduction is relative to the residual of the given starting vector; computing res0 before x0 is copied in '
             'measures against ||f|| instead', definite=True)
+    elif take_x0:
+        # no res0 of the form f - A x: does any res0 assigned on the x0 path (or after it) depend on the iterate at all?
+        cond_x0 = set((t, p) for (t, p, _n) in guards.path_conditions(take_x0[0]))
+        cands = [s for s in pre if isinstance(s, ast.Assign) and src(s.targets[0]) == 'res0'
+                 and 'res0' not in {n.id for n in ast.walk(s.value) if isinstance(n, ast.Name)}
+                 and (set((t, p) for (t, p, _n) in guards.path_conditions(s)) == cond_x0 or
+                      (not guards.path_conditions(s) and s.lineno > take_x0[0].lineno))]
+        raw = [s for s in cands if not ({n.id for n in ast.walk(s.value) if isinstance(n, ast.Name)} & {'x', 'x0', 'res0', 'r', 'r0'})]
+        if cands and len(raw) == len(cands):
+            ctx.violated('R11.4', fi.qual, 'reference residual of a given starting vector: ' + src(raw[0]), raw[0],
+                         'with a starting vector x0 the reference residual is f - A x0; this assignment does not depend on the iterate, so the '
+                         'requested reduction is measured against ||f||')
+        else:
+            ctx.undecided('R11.4', fi.qual, 'reference residual of a given starting vector', fn, 'statements not recognised')
     else:
         ctx.undecided('R11.4', fi.qual, 'reference residual of a given starting vector', fn, 'statements not recognised')
     r0 = [s for s in own_nodes(fn) if isinstance(s, ast.Assign) and src(s.targets[0]) == 'res0']
